@@ -11,6 +11,7 @@ import (
 	"errors"
 	"flag"
 	"fmt"
+	"math"
 	"os"
 	"strconv"
 	"strings"
@@ -21,7 +22,10 @@ import (
 )
 
 var capacities = []int{1, 2, 3, 8, 64, 65, 100, 0, 0, -1, -7}
-var cmps = []string{"nat", "nat", "div3", "div3", "rev"}
+var cmps = []string{"nat", "nat", "div3", "div3", "rev", "diff"}
+
+// extreme elements (never under "diff": a-b must not overflow)
+var extremes = []int{math.MaxInt, math.MinInt, math.MaxInt - 1, math.MinInt + 1}
 var kinds = []string{"pq", "pq", "pqpub"}
 
 func cmpOf(name string) func(a, b int) int {
@@ -40,6 +44,9 @@ func cmpOf(name string) func(a, b int) int {
 		return func(a, b int) int { return nat(a/3, b/3) }
 	case "rev":
 		return func(a, b int) int { return nat(b, a) }
+	case "diff":
+		// results of any magnitude (not only -1/0/1): only the sign may matter
+		return func(a, b int) int { return a - b }
 	}
 	panic("cmp " + name)
 }
@@ -62,6 +69,14 @@ func gen(tier string, out *vlib.Out) {
 		"new pq div3 0\nenq 9\nenq 3\nenq 4\nenq 5\nenq 0\nenq 1\nenq 2\ndeq\ndeq\ndeq\ndeq\ndeq\ndeq\ndeq\ndeq",
 		"new pq nat 8\nenq 5\nenq 5\nenq 5\nenq 1\nenq 1\nenq 9\ndeq\ndeq\ndeq\ndeq\ndeq\ndeq\ndeq",
 		"new pq rev 8\nenq 1\nenq 2\nenq 3\nenq 4\nenq 5\nenq 6\nenq 7\ndeq\ndeq\ndeq\npeek\ndeq\ndeq\ndeq\ndeq",
+		// comparator results other than -1/0/1 (`return a - b`), sift-up and both sift-down branches
+		"new pq diff 0\nenq 50\nenq 40\nenq 30\nenq 20\nenq 10\nenq 0\nenq -10\npeek\ndeq\ndeq\ndeq\ndeq\ndeq\ndeq\ndeq\ndeq",
+		"new pqpub diff 4\nenq 7\nenq 0\nenq 7\nenq -3\nenq 1\ndeq\ndeq\ndeq\ndeq\ndeq",
+		// zero-valued and extreme elements (slot 0 of the array holds the zero value too)
+		"new pq nat 0\nenq 0\npeek\nlen\ndeq\nlen\nenq 0\nenq 0\nenq -1\ndeq\ndeq\ndeq\ndeq",
+		"new pq nat 0\nenq 9223372036854775807\nenq -9223372036854775808\nenq 0\nenq -1\nenq 9223372036854775807\nenq 1\npeek\ndeq\ndeq\ndeq\ndeq\ndeq\ndeq\ndeq",
+		"new pq rev 3\nenq -9223372036854775808\nenq 9223372036854775807\nenq 0\nenq 5\ndeq\ndeq\ndeq\ndeq",
+		"new pq div3 0\nenq -9223372036854775808\nenq -9223372036854775807\nenq 9223372036854775807\nenq 9223372036854775805\nenq 0\nenq -2\nenq 2\ndeq\ndeq\ndeq\ndeq\ndeq\ndeq\ndeq",
 	}
 	for _, c := range corpus {
 		for _, l := range strings.Split(c, "\n") {
@@ -87,6 +102,7 @@ func gen(tier string, out *vlib.Out) {
 	big("pq", "div3", -1, 131, 20, r.Fork())
 	big("pqpub", "nat", 0, 70, 1000, r.Fork())
 	big("pq", "nat", 100, 101, 30, r.Fork())
+	big("pq", "diff", 0, 90, 40, r.Fork())
 	big("pq", "nat", 0, 2100, 5000, r.Fork())
 	if tier == "thorough" {
 		big("pq", "div3", 0, 2600, 100, r.Fork())
@@ -104,7 +120,11 @@ func gen(tier string, out *vlib.Out) {
 			limit = 1 << 30
 		}
 		enq := func() {
-			out.Line("enq %d", r.Range(-span, span))
+			if cmp != "diff" && r.Chance(2) {
+				out.Line("enq %d", vlib.Pick(r, extremes))
+			} else {
+				out.Line("enq %d", r.Range(-span, span))
+			}
 			if n < limit {
 				n++
 			}
